@@ -16,7 +16,7 @@ from .common import Acc, outcome_sig
 PROP = 'C06'
 ABSENT = '<absent>'
 DOM = [ABSENT, None, 0, 1, 1.0, True, '1', [1], [1.0], {'a': 1, 'b': [2]}, {'b': [2], 'a': 1.0}, {}, {'a': 1},
-       {'a': 1, 'level': 9}, [], [[1]], 'x']
+       {'a': 1, 'level': 9}, [], [[1]], 'x', False, '', 0.0]
 DOM4 = [ABSENT, 0, 1, {'a': 1}]
 
 
@@ -182,7 +182,7 @@ def coverage(res, tier):
         'distinct_outcomes': len(res.outcomes),
         'exhaustive': True,
         'rule': 'all call graphs with 1-3 nodes (5 forest shapes, sb/bf, explicit function names incl. a shared '
-                'callee name) x each function x all ordered pairs of the 17-value version domain, with a body that '
+                'callee name) x each function x all ordered pairs of the 20-value version domain, with a body that '
                 'ignores / mentions its version; two functions at once over a 4-value sub-domain; graphs with one '
                 'caught failing node over the sub-domain. History build(V_old), build(V_new), build(V_new). The '
                 'invocation log after the change must equal the prediction (calls of changed functions and their '
